@@ -2,6 +2,9 @@
 functions (howMuchTimeFromNow incl. its floor, addTime, Timer::restart), the sentinel of getExpired,
 and every branch guard of insert / addTimerInLoop / cancelInLoop / reset, plus the order of the
 sequence read and the hand-over in addTimer (fix 0550046)."""
+import re
+from fractions import Fraction
+
 from ..extract import (HEADER, ExtractError, Tr, ast_dump, body_of, const_int, find_ifs, if_cond, kids, locate_var,
                        prop_def, strip, the_function, unparen, walk)
 
@@ -101,6 +104,203 @@ def init_of(var):
     return ks[-1]
 
 
+# ----------------------------------------------------------------------------- typed arithmetic (C integer widths, doubles)
+# The small arithmetic functions (addTime, howMuchTimeFromNow) are translated with the C type of every
+# intermediate value, taken from the clang AST:
+#   * an operation or conversion whose C type is a 32-bit integer is wrapped (`wrapI32` = Int.bmod _ 2^32: the value
+#     g++ computes on x86-64; the overflow itself is formally undefined) - so `int * int` widened afterwards is NOT the
+#     exact product;
+#   * 64-bit operations are exact integers in the definitions the model uses (microseconds since the epoch stay inside
+#     int64_t until the year 294247); a second, "machine" variant `...W` of each function wraps them too (`wrapI64`), and
+#     Props/C06.lean proves that the two agree on the whole int64 range (addTime_exact_in_range, arm_exact_in_range);
+#   * a `double` is an exact rational `num / den` (`num` a Lean Int term, `den` a positive literal known here): the
+#     `seconds` argument of addTime stands for `us / 10^6` with `us` the integer handed to the model, + - * and
+#     comparisons are exact, a conversion to an integer type truncates towards zero (Int.tdiv) and wraps to the width of
+#     the target.  That double arithmetic agrees with this on the values used is the stated, trusted part (the harness
+#     refuses delays for which the unchanged code's double product is not the integer: `inexact-interval`).
+INT_TYPES = {
+    "int": (32, True), "unsigned int": (32, False), "long": (64, True), "unsigned long": (64, False),
+    "long long": (64, True), "unsigned long long": (64, False),
+}
+
+
+def _ty(n):
+    t = n.get("type", {})
+    q = t.get("desugaredQualType") or t.get("qualType", "")
+    q = re.sub(r"\b(const|volatile)\b", "", q).strip()
+    return re.sub(r"\s+", " ", q)
+
+
+def tstrip(n):
+    """skip nodes that change neither value nor type"""
+    while True:
+        k = n.get("kind")
+        if k in ("ParenExpr", "ExprWithCleanups", "MaterializeTemporaryExpr", "CXXBindTemporaryExpr", "ConstantExpr"):
+            n = kids(n)[0]
+        elif k in ("ImplicitCastExpr", "CStyleCastExpr", "CXXStaticCastExpr", "CXXFunctionalCastExpr") and \
+                n.get("castKind") in ("LValueToRValue", "NoOp"):
+            n = kids(n)[0]
+        else:
+            return n
+
+
+class I:      # integer value: Lean Int term + C width/signedness
+    def __init__(self, text, bits, signed):
+        self.text, self.bits, self.signed = text, bits, signed
+
+
+class F:      # double value: num / den, den a positive Python int
+    def __init__(self, num, den):
+        self.num, self.den = num, den
+
+
+class B:      # truth value (Lean Prop)
+    def __init__(self, text):
+        self.text = text
+
+
+def _mul(t, k):
+    return t if k == 1 else "(%s * %d)" % (t, k)
+
+
+class TTr:
+    """typed expression translator; `sym`: canonical key (ckey) -> I/F value; `machine`: wrap 64-bit results as well"""
+
+    def __init__(self, sym, machine=False):
+        self.sym, self.machine = dict(sym), machine
+
+    def wrap(self, text, bits, signed):
+        if bits == 64 and not self.machine:
+            return text
+        return "(wrap%s%d %s)" % ("I" if signed else "U", bits, text)
+
+    def int_type(self, n):
+        t = _ty(n)
+        if t not in INT_TYPES:
+            raise ExtractError("typed translator: integer type `%s` is not supported" % t)
+        return INT_TYPES[t]
+
+    def val(self, n):
+        n = tstrip(n)
+        k = n.get("kind")
+        if k == "IntegerLiteral":
+            bits, signed = self.int_type(n)
+            return I(str(int(n["value"])), bits, signed)
+        if k == "FloatingLiteral":
+            if _ty(n) != "double":
+                raise ExtractError("typed translator: floating type `%s`" % _ty(n))
+            fr = Fraction(float(n["value"]))
+            if fr.denominator > (1 << 20):
+                raise ExtractError("typed translator: literal %s is not a small binary fraction" % n["value"])
+            return F(str(fr.numerator), fr.denominator)
+        if k in ("ImplicitCastExpr", "CStyleCastExpr", "CXXStaticCastExpr", "CXXFunctionalCastExpr"):
+            ck = n.get("castKind")
+            a = self.val(kids(n)[0])
+            if ck == "IntegralToFloating" and isinstance(a, I) and _ty(n) == "double":
+                return F(a.text, 1)
+            if ck == "FloatingToIntegral" and isinstance(a, F):
+                bits, signed = self.int_type(n)
+                q = a.num if a.den == 1 else "(Int.tdiv %s %d)" % (a.num, a.den)
+                return I(self.wrap(q, bits, signed), bits, signed)
+            if ck == "IntegralCast" and isinstance(a, I):
+                bits, signed = self.int_type(n)
+                if (bits, signed) == (a.bits, a.signed) or (bits > a.bits and not (a.signed and not signed)):
+                    return I(a.text, bits, signed)          # same type, or a widening that keeps every value
+                if re.fullmatch(r"\d+", a.text) and int(a.text) < (1 << (bits - 1)):
+                    return I(a.text, bits, signed)          # a small non-negative literal
+                return I("(wrap%s%d %s)" % ("I" if signed else "U", bits, a.text), bits, signed)
+            raise ExtractError("typed translator: cast %s to `%s`" % (ck, _ty(n)))
+        if k == "UnaryOperator" and n.get("opcode") == "-":
+            a = self.val(kids(n)[0])
+            if isinstance(a, F):
+                return F("(-%s)" % a.num, a.den)
+            if isinstance(a, I):
+                bits, signed = self.int_type(n)
+                return I(self.wrap("(-%s)" % a.text, bits, signed), bits, signed)
+        if k == "UnaryOperator" and n.get("opcode") == "!":
+            a = self.val(kids(n)[0])
+            if isinstance(a, B):
+                return B("¬ (%s)" % a.text)
+        if k == "BinaryOperator":
+            op = n["opcode"]
+            a, b = [self.val(x) for x in kids(n)]
+            cmp = {"<": "<", "<=": "≤", ">": ">", ">=": "≥", "==": "=", "!=": "≠"}
+            if isinstance(a, F) and isinstance(b, F):
+                if op in ("+", "-"):
+                    return F("(%s %s %s)" % (_mul(a.num, b.den), op, _mul(b.num, a.den)), a.den * b.den)
+                if op == "*":
+                    return F("(%s * %s)" % (a.num, b.num), a.den * b.den)
+                if op == "/" and re.fullmatch(r"-?\d+", b.num) and int(b.num) != 0:
+                    sgn = -1 if int(b.num) < 0 else 1
+                    return F(_mul(a.num, sgn * b.den), a.den * abs(int(b.num)))
+                if op in cmp:
+                    return B("(%s %s %s)" % (_mul(a.num, b.den), cmp[op], _mul(b.num, a.den)))
+            if isinstance(a, I) and isinstance(b, I):
+                if (a.bits, a.signed) != (b.bits, b.signed):
+                    raise ExtractError("typed translator: operands of `%s` have different types" % op)
+                if op in cmp:
+                    return B("(%s %s %s)" % (a.text, cmp[op], b.text))
+                bits, signed = self.int_type(n)
+                if op in ("+", "-", "*"):
+                    return I(self.wrap("(%s %s %s)" % (a.text, op, b.text), bits, signed), bits, signed)
+                if op in ("/", "%") and signed:
+                    # INT_MIN / -1 is the only quotient that leaves the type
+                    return I(self.wrap("(Int.%s %s %s)" % ("tdiv" if op == "/" else "tmod", a.text, b.text), bits, signed),
+                             bits, signed)
+            if isinstance(a, B) and isinstance(b, B) and op in ("&&", "||"):
+                return B("(%s %s %s)" % (a.text, "∧" if op == "&&" else "∨", b.text))
+            raise ExtractError("typed translator: binary operator `%s` on these operands" % op)
+        if k == "ConditionalOperator":
+            c, a, b = [self.val(x) for x in kids(n)]
+            if isinstance(c, B) and isinstance(a, F) and isinstance(b, F):
+                return F("(if %s then %s else %s)" % (c.text, _mul(a.num, b.den), _mul(b.num, a.den)), a.den * b.den)
+            if isinstance(c, B) and isinstance(a, I) and isinstance(b, I) and (a.bits, a.signed) == (b.bits, b.signed):
+                return I("(if %s then %s else %s)" % (c.text, a.text, b.text), a.bits, a.signed)
+            raise ExtractError("typed translator: conditional operator on these operands")
+        try:
+            key = ckey(n)
+        except (ExtractError, KeyError, IndexError):
+            key = None
+        if key is not None and key in self.sym:
+            return self.sym[key]
+        raise ExtractError("typed translator: unsupported expression %s%s" % (k, " `%s`" % key if key else ""))
+
+    def expr(self, n):
+        """Lean text of an integer or truth value"""
+        v = self.val(n)
+        if isinstance(v, F):
+            raise ExtractError("typed translator: a double where an integer is expected")
+        return v.text
+
+    def bind(self, var):
+        """`T x = init;`: returns the Lean `let` line and makes `x` known"""
+        v = self.val(init_of(var))
+        name = var["name"]
+        if isinstance(v, I):
+            bits, signed = self.int_type(var)
+            if (bits, signed) != (v.bits, v.signed):
+                raise ExtractError("typed translator: initialiser of `%s` has another type than the variable" % name)
+            self.sym[name] = I(name, bits, signed)
+            return "let %s := %s" % (name, unparen(v.text))
+        if isinstance(v, F) and _ty(var) == "double":
+            self.sym[name] = F(name, v.den)
+            return "let %s := %s" % (name, unparen(v.num))
+        raise ExtractError("typed translator: variable `%s` of type `%s`" % (name, _ty(var)))
+
+
+WRAPS = """/-- the value of a signed 32-bit C expression whose mathematical result is `x`: two's-complement wrap-around (what
+g++ computes on x86-64 at -O0 .. -O2; the overflow itself is formally undefined) -/
+def wrapI32 (x : Int) : Int := Int.bmod x 4294967296
+/-- unsigned 32-bit: reduction modulo 2^32 -/
+def wrapU32 (x : Int) : Int := x % 4294967296
+/-- signed 64-bit.  Only the machine variants (`addTimeW`, `howMuchUsW`, `howMuchTimeFromNowW`) use it: in the definitions
+the model is built from, 64-bit quantities are exact integers; `Props/C06.lean` proves both agree on the int64 range -/
+def wrapI64 (x : Int) : Int := Int.bmod x 18446744073709551616
+/-- unsigned 64-bit -/
+def wrapU64 (x : Int) : Int := x % 18446744073709551616
+"""
+
+
 def generate():
     SITES.clear()
     out = [HEADER % "muduo/net/TimerQueue.cc, muduo/net/Timer.cc, muduo/net/Timer.h, muduo/base/Timestamp.h",
@@ -130,62 +330,99 @@ def generate():
     out.append("/-- `Timestamp::invalid()` = `Timestamp()` -/\ndef timestampInvalid : Int := %d\n"
                % int(strip(kids(inits[0])[0])["value"]))
 
-    # ---------------- addTime (the double product is the caller's integer `delta`)
+    out.append(WRAPS)
+
+    # ---------------- addTime: every statement, with the C type of every intermediate value
     adocs = ast_dump("muduo/net/TimerQueue.cc", "muduo::addTime")
     at = the_function(adocs, "addTime")
-    delta = locate_var(at, "delta")
-    prod = init_of(delta)
-    # static_cast<int64_t>(seconds * kMicroSecondsPerSecond)
-    shape = [x.get("kind") for x in walk(prod)]
-    mul = [x for x in walk(prod) if x.get("kind") == "BinaryOperator"]
-    if (len(mul) != 1 or mul[0].get("opcode") != "*" or "FloatingToIntegral" not in [x.get("castKind") for x in walk(prod)]
-            or sorted(ckey(a) for a in kids(mul[0])) != ["kMicroSecondsPerSecond", "seconds"]):
-        raise ExtractError("addTime: delta is no longer (int64_t)(seconds * kMicroSecondsPerSecond): %s" % shape)
-    ret = [s for s in stmts(at) if s.get("kind") == "ReturnStmt"]
-    t = Tr({"timestamp.microSecondsSinceEpoch()": "timestamp", "delta": "delta"}, consts, int_mode=True)
-    inner = strip(kids(ret[0])[0])
-    while inner.get("kind") in ("CXXConstructExpr", "CXXFunctionalCastExpr", "CXXTemporaryObjectExpr") and len(kids(inner)) == 1:
-        inner = strip(kids(inner)[0])
-    out.append("/-- `addTime(timestamp, seconds)` with `delta = (int64_t)(seconds * kMicroSecondsPerSecond)` supplied "
-               "as an integer -/\ndef addTime (timestamp : Int) (delta : Int) : Int := %s\n" % unparen(t.expr(inner)))
+    ps = [p for p in kids(at) if p.get("kind") == "ParmVarDecl"]
+    if [(p.get("name"), _ty(p)) for p in ps] != [("timestamp", "muduo::Timestamp"), ("seconds", "double")]:
+        raise ExtractError("addTime: the parameters are no longer (Timestamp timestamp, double seconds)")
+    if kus <= 0:
+        raise ExtractError("kMicroSecondsPerSecond is not positive")
+    cint = {"kMicroSecondsPerSecond": I("kMicroSecondsPerSecond", 32, True)}
+
+    def add_time(machine):
+        # `seconds` stands for the rational us / kMicroSecondsPerSecond
+        t = TTr(dict(cint, **{"timestamp.microSecondsSinceEpoch()": I("timestamp", 64, True), "seconds": F("us", kus)}), machine)
+        lets, res = [], None
+        for s in stmts(at):
+            if res is not None:
+                raise ExtractError("addTime: statements after the return")
+            if s.get("kind") == "DeclStmt" and len(kids(s)) == 1 and kids(s)[0].get("kind") == "VarDecl":
+                lets.append(t.bind(kids(s)[0]))
+            elif s.get("kind") == "ReturnStmt":
+                inner = tstrip(kids(s)[0])
+                while inner.get("kind") in ("CXXConstructExpr", "CXXFunctionalCastExpr", "CXXTemporaryObjectExpr") and \
+                        len(kids(inner)) == 1 and _ty(inner) == "muduo::Timestamp":
+                    inner = tstrip(kids(inner)[0])
+                v = t.val(inner)
+                if not isinstance(v, I) or (v.bits, v.signed) != (64, True):
+                    raise ExtractError("addTime: the Timestamp is no longer built from an int64_t")
+                res = unparen(v.text)
+            else:
+                raise ExtractError("addTime: unsupported statement %s" % s.get("kind"))
+        if res is None:
+            raise ExtractError("addTime: no return statement")
+        return "".join("  %s\n" % l for l in lets) + "  %s\n" % res
+
+    out.append("/-- `addTime(timestamp, seconds)`; the `double seconds` is supplied as the integer `us` and stands for "
+               "`us / kMicroSecondsPerSecond` seconds exactly (doubles are exact rationals here: the trusted part).  32-bit "
+               "intermediate values wrap, 64-bit ones are exact -/\n"
+               "def addTime (timestamp : Int) (us : Int) : Int :=\n" + add_time(False))
+    out.append("/-- the same with every 64-bit operation and conversion wrapped as well (the machine's arithmetic) -/\n"
+               "def addTimeW (timestamp : Int) (us : Int) : Int :=\n" + add_time(True))
 
     # ---------------- howMuchTimeFromNow
     hdocs = ast_dump("muduo/net/TimerQueue.cc", "muduo::net::detail::howMuchTimeFromNow")
     hm = the_function(hdocs, "howMuchTimeFromNow")
     ss = stmts(hm)
-    t = Tr({"when.microSecondsSinceEpoch()": "when", "now().microSecondsSinceEpoch()": "now",
-            "microseconds": "microseconds"}, consts, int_mode=True)
-    us0 = t.expr(init_of(locate_var(hm, "microseconds")))
     ifs = find_ifs(hm)
     if len(ifs) != 1 or len(kids(ifs[0])) != 2:
         raise ExtractError("howMuchTimeFromNow: expected exactly one `if` without else (the floor)")
-    cond = t.expr(if_cond(ifs[0]))
-    lhs, rhs = assignment(single_stmt(kids(ifs[0])[1]))
-    if lhs != "microseconds":
-        raise ExtractError("howMuchTimeFromNow: the floor no longer assigns `microseconds`")
-    floor = t.expr(rhs)
-    sec = nsec = None
-    for s in ss:
-        s = strip(s)
-        if s.get("kind") == "BinaryOperator" and s.get("opcode") == "=":
-            l, r = assignment(s)
-            if l == "ts.tv_sec":
-                sec = t.expr(r)
-            elif l == "ts.tv_nsec":
-                nsec = t.expr(r)
-    if sec is None or nsec is None:
-        raise ExtractError("howMuchTimeFromNow: tv_sec / tv_nsec assignments not found")
     # statement order: declaration, floor, then the two field assignments
     order = [s.get("kind") for s in ss]
     if order[:2] != ["DeclStmt", "IfStmt"]:
         raise ExtractError("howMuchTimeFromNow: statement order changed: %s" % order)
+    usvar = locate_var(hm, "microseconds")
+    if (_ty(usvar), _ty(locate_var(hm, "ts"))) != ("long", "timespec"):
+        raise ExtractError("howMuchTimeFromNow: `microseconds` is no longer an int64_t / `ts` no longer a timespec")
+
+    def how_much(machine, sfx):
+        t = TTr(dict(cint, **{"when.microSecondsSinceEpoch()": I("when", 64, True),
+                              "now().microSecondsSinceEpoch()": I("now", 64, True)}), machine)
+        let0 = t.bind(usvar)
+        cond = t.expr(if_cond(ifs[0]))
+        lhs, rhs = assignment(single_stmt(kids(ifs[0])[1]))
+        if lhs != "microseconds":
+            raise ExtractError("howMuchTimeFromNow: the floor no longer assigns `microseconds`")
+        floor = t.expr(rhs)
+        sec = nsec = None
+        for s in ss:
+            s = strip(s)
+            if s.get("kind") == "BinaryOperator" and s.get("opcode") == "=":
+                l, r = assignment(s)
+                fld = tstrip(kids(s)[0])
+                if l in ("ts.tv_sec", "ts.tv_nsec") and (_ty(fld), _ty(s)) != ("long", "long"):
+                    raise ExtractError("howMuchTimeFromNow: %s is not a 64-bit field here (%s)" % (l, _ty(fld)))
+                if l == "ts.tv_sec":
+                    sec = t.expr(r)
+                elif l == "ts.tv_nsec":
+                    nsec = t.expr(r)
+        if sec is None or nsec is None:
+            raise ExtractError("howMuchTimeFromNow: tv_sec / tv_nsec assignments not found")
+        return ("def howMuchUs%s (when : Int) (now : Int) : Int :=\n  %s\n"
+                "  let microseconds := if %s then %s else microseconds\n  microseconds\n" % (sfx, let0, unparen(cond), floor),
+                "def howMuchTimeFromNow%s (when : Int) (now : Int) : Int × Int :=\n  let microseconds := howMuchUs%s when now\n"
+                "  (%s, %s)\n" % (sfx, sfx, unparen(sec), unparen(nsec)))
+
+    h_us, h_ts = how_much(False, "")
     out.append("/-- `detail::howMuchTimeFromNow(when)`: the relative time in microseconds after the floor; "
-               "`now` is the clock reading it makes -/\n"
-               "def howMuchUs (when : Int) (now : Int) : Int :=\n  let microseconds := %s\n"
-               "  let microseconds := if %s then %s else microseconds\n  microseconds\n" % (unparen(us0), unparen(cond), floor))
-    out.append("/-- the `timespec` it returns: (tv_sec, tv_nsec) -/\n"
-               "def howMuchTimeFromNow (when : Int) (now : Int) : Int × Int :=\n  let microseconds := howMuchUs when now\n"
-               "  (%s, %s)\n" % (unparen(sec), unparen(nsec)))
+               "`now` is the clock reading it makes -/\n" + h_us)
+    out.append("/-- the `timespec` it returns: (tv_sec, tv_nsec); both fields are 64 bits wide here -/\n" + h_ts)
+    h_us, h_ts = how_much(True, "W")
+    out.append("/-- the same with the 64-bit operations wrapped (the machine's arithmetic) -/\n" + h_us)
+    out.append(h_ts)
 
     # ---------------- Timer::restart, Timer::Timer
     rdocs = ast_dump("muduo/net/Timer.cc", "muduo::net::Timer")
